@@ -58,6 +58,9 @@ func c03ConcScenarios(quick bool) []c03ConcScenario {
 				out = append(out, c03ConcScenario{PerRequest: per, PKCE: pkce, Reqs: p})
 			}
 		}
+		// two browsers start a login at the same time: each of the two logins completes in its own
+		// browser (the CSRF cookie a start hands out carries that start's state, nonce and verifier)
+		out = append(out, c03ConcScenario{PerRequest: per, PKCE: true, Reqs: [2]string{"sA", "sB"}})
 	}
 	return out
 }
@@ -113,6 +116,11 @@ func (w *c03ConcWorld) request(name string) (*Browser, *world.Req) {
 		b, target = w.a, w.cb["B"]
 	case "fBA":
 		b, target = w.b, w.cb["A"]
+	case "sA":
+		// a further login is started (while the other browser starts one too)
+		return w.a, w.a.Req("GET", "/oauth2/start?rd=%2Fpage2", [2]string{"Cookie", w.a.Jar.Header("http", "app.example.com", "/oauth2/start")})
+	case "sB":
+		return w.b, w.b.Req("GET", "/oauth2/start?rd=%2Fpage2", [2]string{"Cookie", w.b.Jar.Header("http", "app.example.com", "/oauth2/start")})
 	default:
 		panic("c03 concurrent: request " + name)
 	}
@@ -130,6 +138,34 @@ func (w *c03ConcWorld) outcome(name string, resp *world.Resp) string {
 	}
 	b, _ := w.request(name)
 	jar := b.Jar.Clone()
+	if name == "sA" || name == "sB" {
+		// outcome of a start: what becomes of the login it started — the browser keeps the cookies of
+		// the answer, visits the provider, comes back, and is then asked who it is
+		if resp.Status != 302 {
+			return fmt.Sprintf("start-status=%d", resp.Status)
+		}
+		user := map[string]string{"sA": "alice", "sB": "bob"}[name]
+		jar.SetCookies("http", "app.example.com", "/oauth2/start", resp.Header)
+		cb, _, err := w.idp.Authorize(resp.Location(), user)
+		if err != nil {
+			return "start-status=302 provider-refuses-the-authorization-request"
+		}
+		u, _ := url.Parse(cb)
+		r2 := world.Serve(w.px.H, &world.Req{Method: "GET", Target: u.RequestURI(), Host: "app.example.com", Headers: [][2]string{{"Cookie", jar.Header("http", "app.example.com", "/oauth2/callback")}}})
+		jar.SetCookies("http", "app.example.com", "/oauth2/callback", r2.Header)
+		ui := world.Serve(w.px.H, &world.Req{Method: "GET", Target: "/oauth2/userinfo", Host: "app.example.com", Headers: [][2]string{{"Cookie", jar.Header("http", "app.example.com", "/")}}})
+		who := "nobody"
+		if ui.Status == 200 {
+			who = strings.TrimSpace(ui.Body)
+			if i := strings.Index(who, `"email":"`); i >= 0 {
+				who = who[i+9:]
+				if j := strings.IndexByte(who, '"'); j >= 0 {
+					who = who[:j]
+				}
+			}
+		}
+		return fmt.Sprintf("start-status=302 callback-status=%d then-user=%s", r2.Status, who)
+	}
 	session := false
 	for _, ck := range resp.Cookies() {
 		if ck.Name == "_oauth2_proxy" || strings.HasPrefix(ck.Name, "_oauth2_proxy_") && !strings.Contains(ck.Name, "csrf") {
@@ -198,6 +234,8 @@ func c05ConcScenarios() []c03ConcScenario {
 		{PerRequest: false, PKCE: true, Reqs: [2]string{"gA", "gB"}},
 		{PerRequest: true, PKCE: true, Reqs: [2]string{"gA", "gB"}},
 		{PerRequest: false, PKCE: true, Reqs: [2]string{"fAB", "gA"}},
+		{PerRequest: false, PKCE: true, Reqs: [2]string{"sA", "sB"}},
+		{PerRequest: true, PKCE: true, Reqs: [2]string{"sA", "sB"}},
 	}
 }
 
